@@ -338,14 +338,23 @@ func c20Timeout(d time.Duration, f func()) bool {
 	}
 }
 
+// after a few hangs the remaining cases fail fast (a hang is an oracle failure, never a stuck check)
+var c20Hangs int
+
+const c20HSTimeout = 3 * time.Second
+
 func c20HonestPair(ka, kb *ecdsa.PrivateKey) (ea, eb *c20End, ra, rb c20HSResult, ok bool) {
 	ea, eb = newC20Ends()
+	if c20Hangs >= 3 {
+		return
+	}
 	var wg sync.WaitGroup
 	wg.Add(2)
 	go func() { defer wg.Done(); ra.sc, ra.err = MakeSecretConnection(ea, ka) }()
 	go func() { defer wg.Done(); rb.sc, rb.err = MakeSecretConnection(eb, kb) }()
-	ok = c20Timeout(10*time.Second, wg.Wait)
+	ok = c20Timeout(c20HSTimeout, wg.Wait)
 	if !ok {
+		c20Hangs++
 		ea.Close()
 		eb.Close()
 	}
@@ -538,7 +547,7 @@ func c20SCCase(o *c20Out, idx int, r *c20Rand) {
 				break
 			}
 		}
-		added := c20Forward(o, d, dirs[rdr], ends[rdr].inbound, toks)
+		added := c20Forward(o, d, dirs[rdr], ends[rdr].inbound, toks, scs[w])
 		step++
 		o.Op(fmt.Sprintf("F %d %s", w, strings.Join(toks, " ")), fmt.Sprintf("F %d", added))
 		sig += strings.Join(toks, "")
@@ -580,6 +589,9 @@ func c20SCCase(o *c20Out, idx int, r *c20Rand) {
 			if panicked {
 				cls = "panic"
 				n = 0
+				if !overflow {
+					o.Fail(step, "panic", "SecretConnection.Read panicked")
+				}
 			}
 			step++
 			o.Op(fmt.Sprintf("R %d %d", rdr, cp), fmt.Sprintf("R n=%d d=%s %s", n, c20Digest(buf[:n]), cls))
@@ -669,7 +681,9 @@ func c20SizeClass(sz int) string {
 
 func c20TamperToken(r *c20Rand, d, other *c20Direction, pos int) string {
 	for {
-		switch r.Intn(11) {
+		switch r.Intn(14) {
+		case 11, 12, 13:
+			return fmt.Sprintf("L:%d", []int{dataMaxSize + 1, dataMaxSize + 2, 2 * dataMaxSize, 1 << 20, 1<<32 - 1, dataMaxSize + 1 + r.Intn(3000)}[r.Intn(6)])
 		case 0:
 			return "D"
 		case 1:
@@ -704,7 +718,7 @@ func c20TamperToken(r *c20Rand, d, other *c20Direction, pos int) string {
 
 // c20Forward applies the edit script to the pending frames of direction d and appends the result
 // to the reader's inbound queue.  Same semantics as sc_forward in ocaml/C20/driver.ml.
-func c20Forward(o *c20Out, d, other *c20Direction, q *c20Queue, toks []string) int {
+func c20Forward(o *c20Out, d, other *c20Direction, q *c20Queue, toks []string, wsc *SecretConnection) int {
 	added := 0
 	put := func(f []byte) { q.Write(f); added += len(f); d.appended += len(f) }
 	pop := func() []byte {
@@ -791,6 +805,18 @@ func c20Forward(o *c20Out, d, other *c20Direction, q *c20Queue, toks []string) i
 				tamper()
 				put(f[:arg(1)])
 			}
+		case "L":
+			// a malicious *authenticated* peer: a correctly sealed frame (writer's key and current
+			// nonce) whose length field exceeds dataMaxSize
+			if c20Ctr(wsc.sendNonce) == ^uint64(0) {
+				break // no nonce left
+			}
+			frame := make([]byte, totalFrameSize)
+			binary.LittleEndian.PutUint32(frame, uint32(arg(1)))
+			sealed := wsc.sendAead.Seal(nil, wsc.sendNonce[:], frame, nil)
+			incrNonce(wsc.sendNonce)
+			tamper()
+			put(sealed)
 		case "C":
 			tamper()
 			d.closed = true
@@ -1006,6 +1032,9 @@ var c20Session = 100
 // c20VictimVsEvil runs a real MakeSecretConnection (victim key kv) against the evil peer.
 func c20VictimVsEvil(kv *ecdsa.PrivateKey, op *c20EvilOpts) (res c20HSResult, evilErr error, ok bool) {
 	ev, ee := newC20Ends()
+	if c20Hangs >= 3 {
+		return
+	}
 	var wg sync.WaitGroup
 	wg.Add(2)
 	go func() { defer wg.Done(); res.sc, res.err = MakeSecretConnection(ev, kv) }()
@@ -1017,8 +1046,9 @@ func c20VictimVsEvil(kv *ecdsa.PrivateKey, op *c20EvilOpts) (res c20HSResult, ev
 			ev.inbound.Close()
 		}
 	}()
-	ok = c20Timeout(10*time.Second, wg.Wait)
+	ok = c20Timeout(c20HSTimeout, wg.Wait)
 	if !ok {
+		c20Hangs++
 		ev.Close()
 		ee.Close()
 	}
@@ -1312,6 +1342,10 @@ func c20StartReceiver(conn net.Conn, ds []c20Desc, maxp int) (*MConnection, *c20
 
 // c20FeedReceiver writes the raw stream to a real started MConnection and reports deliveries and the error.
 func c20FeedReceiver(o *c20Out, ds []c20Desc, maxp int, stream []byte, pings bool) (events [][2]interface{}, cls string) {
+	if c20Hangs >= 3 {
+		o.Fail(0, "hang", "skipped after repeated hangs")
+		return nil, "hang"
+	}
 	server, client := net.Pipe()
 	b, rc := c20StartReceiver(server, ds, maxp)
 	go io.Copy(io.Discard, client) // pongs
@@ -1332,8 +1366,9 @@ func c20FeedReceiver(o *c20Out, ds []c20Desc, maxp int, stream []byte, pings boo
 	select {
 	case e := <-rc.errCh:
 		cls = c20MErrClass(e)
-	case <-time.After(10 * time.Second):
+	case <-time.After(5 * time.Second):
 		cls = "hang"
+		c20Hangs++
 		o.Fail(0, "hang", "receiver neither delivered the end of stream nor reported an error")
 	}
 	b.Stop()
@@ -1738,6 +1773,10 @@ func c20MXCase(o *c20Out, idx int, r *c20Rand) {
 	ds := c20Descs(r)
 	o.Case(idx, fmt.Sprintf("CASE %d MX", idx))
 	c20EmitDescs(o, ds, maxp)
+	if c20Hangs >= 3 {
+		o.Fail(0, "hang", "skipped after repeated hangs")
+		return
+	}
 	allowOver := r.Chance(1, 5)
 	plans := make([][][]byte, len(ds))
 	for ci, d := range ds {
@@ -1813,6 +1852,7 @@ func c20MXCase(o *c20Out, idx int, r *c20Rand) {
 		}(ci)
 	}
 	if !c20Timeout(12*time.Second, wg.Wait) {
+		c20Hangs++
 		o.Fail(0, "hang", "senders did not finish")
 	}
 	if a.IsRunning() {
@@ -1822,8 +1862,9 @@ func c20MXCase(o *c20Out, idx int, r *c20Rand) {
 	select {
 	case e := <-rc.errCh:
 		cls = c20MErrClass(e)
-	case <-time.After(10 * time.Second):
+	case <-time.After(5 * time.Second):
 		cls = "hang"
+		c20Hangs++
 		o.Fail(0, "hang", "receiver neither saw the end of the stream nor reported an error")
 	}
 	a.Stop()
